@@ -1519,6 +1519,8 @@ def escalate(rng, focus, tier):
     modes = [None] * 12 + ["clash", "clash", "surplus", "unknown-named", "dup-named"]
     cases += [g_prog(rng, rng.choice(modes)) for _ in range(800)]
     cases += [c for c in (g_probe(rng) for _ in range(300)) if not c["tmpl"].startswith("inplace-")]
+    cases += [g_hist(rng) for _ in range(600)]
+    cases += [c for c in (g_restart_probe(rng) for _ in range(200)) if "-reassign-" in c["tmpl"]]
     return cases
 
 
